@@ -157,7 +157,7 @@ pub fn replay_dir(prop: &str) -> String {
     d
 }
 
-fn write_replay(prop: &str, name: &str, plan: &Plan, v: &Violation, log: &[String]) -> String {
+pub fn write_replay(prop: &str, name: &str, plan: &Plan, v: &Violation, log: &[String]) -> String {
     let path = format!("{}/{name}.json", replay_dir(prop));
     let j = J::obj()
         .set("format", J::s("vsim-replay-1"))
@@ -180,8 +180,62 @@ pub fn load_replay(path: &str) -> Result<(Plan, Option<String>), String> {
     Ok((plan, oracle))
 }
 
+/// Replay file of a violation of the enumeration step that left no plan behind (the process died):
+/// replaying it runs the enumeration step again.
+pub fn write_extra_only_replay(prop: &str, seed: u64, tier: Tier, v: &Violation) -> String {
+    let path = format!("{}/{seed}-enum-abort.json", replay_dir(prop));
+    let j = J::obj()
+        .set("format", J::s("vsim-replay-1"))
+        .set("extra_only", J::i(1))
+        .set("property", J::s(prop))
+        .set("seed", J::s(&seed.to_string()))
+        .set("tier", J::s(tier.name()))
+        .set("violation", J::obj().set("oracle", J::s(&v.oracle)).set("detail", J::s(&v.detail)));
+    let _ = std::fs::write(&path, j.to_string_pretty());
+    path
+}
+
+/// Executes one run of the batch in this process (used by the supervisor to find the run that
+/// kills the process). A violation is reported unminimised.
+pub fn exec_run(scen: &dyn Scenario, run: u64, opts: &Options) -> i32 {
+    let prop = scen.id();
+    let listed = KnownFindings::load().listed_for(prop);
+    let (plan, ctx, r) = execute_one(scen, opts.tier, opts.seed, run, &listed, true);
+    match r {
+        Ok(()) => 0,
+        Err(v) => {
+            opts.say(&format!("violation in run {run}: oracle={} detail={}", v.oracle, v.detail));
+            opts.say("NOTE: not minimised (the simulator process died while this run was being minimised)");
+            let path = write_replay(prop, &format!("{}-{run}-full", opts.seed), &plan, &v, ctx.log.as_deref().unwrap_or(&[]));
+            opts.say(&format!("VIOLATION property={prop} replay={path}"));
+            1
+        }
+    }
+}
+
+/// Runs the enumeration step alone.
+pub fn extra_only(scen: &dyn Scenario, opts: &Options) -> i32 {
+    let prop = scen.id();
+    let listed = KnownFindings::load().listed_for(prop);
+    let mut rep = BatchReport::default();
+    crate::supervise::set(0, crate::supervise::EXTRA);
+    scen.extra(opts.tier, opts.seed, &mut rep);
+    let st = match rep.extra_failure.take() {
+        Some((plan, v)) => finish_violation(scen, opts, &listed, &plan, &v, &format!("{}-enum", opts.seed)),
+        None => {
+            opts.say("REPLAY-PASSES");
+            0
+        }
+    };
+    crate::supervise::set(0, crate::supervise::NONE);
+    st
+}
+
 /// Replays a file: exit status 1 (and a VIOLATION line) iff it fails again.
 pub fn replay(scen: &dyn Scenario, path: &str, opts: &Options) -> i32 {
+    if std::fs::read_to_string(path).is_ok_and(|t| t.contains("\"extra_only\"")) {
+        return extra_only(scen, opts);
+    }
     let (plan, oracle) = match load_replay(path) {
         Ok(x) => x,
         Err(e) => {
@@ -264,7 +318,7 @@ pub fn run_batch(scen: &dyn Scenario, opts: &Options) -> i32 {
             }
         });
         let mut handles = vec![];
-        for slot in slots.iter().take(opts.threads) {
+        for (ti, slot) in slots.iter().take(opts.threads).enumerate() {
             let listed = &listed;
             let next = &next;
             let min_fail = &min_fail;
@@ -279,6 +333,7 @@ pub fn run_batch(scen: &dyn Scenario, opts: &Options) -> i32 {
                         continue;
                     }
                     slot.store(run + 1, Ordering::Relaxed);
+                    crate::supervise::set(ti + 1, run);
                     let (plan, ctx, r) = execute_one(scen, tier, seed, run, listed, false);
                     rep.runs += 1;
                     rep.events += ctx.seq;
@@ -313,6 +368,7 @@ pub fn run_batch(scen: &dyn Scenario, opts: &Options) -> i32 {
                         }
                     }
                     slot.store(0, Ordering::Relaxed);
+                    crate::supervise::set(ti + 1, crate::supervise::NONE);
                 }
                 rep
             }));
@@ -365,14 +421,18 @@ pub fn run_batch(scen: &dyn Scenario, opts: &Options) -> i32 {
     }
     if let Some((run, v)) = rep.failures.first().cloned() {
         violations = 1;
+        crate::supervise::set(0, run);
         status = report_violation(scen, opts, &listed, seed, run, &v);
+        crate::supervise::set(0, crate::supervise::NONE);
     } else {
         // enumerated extras only when the seeded part is clean
+        crate::supervise::set(0, crate::supervise::EXTRA);
         scen.extra(tier, seed, &mut rep);
         if let Some((plan, v)) = rep.extra_failure.take() {
             violations = 1;
             status = finish_violation(scen, opts, &listed, &plan, &v, &format!("{seed}-enum"));
         }
+        crate::supervise::set(0, crate::supervise::NONE);
     }
 
     // known findings: print a line per listed finding whose stored witness still fails
@@ -531,6 +591,10 @@ fn finish_violation(
                 opts.say("HARNESS-ERROR: fresh-process replay fails with a different oracle");
                 return 2;
             }
+        }
+        Some(o) if o.status.code().is_none() => {
+            // the minimised plan takes the whole process down: the supervised replay reports it
+            opts.say("NOTE: the fresh-process replay of the minimised plan died (signal): replaying the file reports <property>.process_abort");
         }
         Some(o) => {
             opts.say(&format!(
